@@ -29,7 +29,7 @@ def base_args(b, nr_exp=4, ntheta_exp=5, aniso=0, div=0):
 
 def gen_cfg(name, maxcalls, fixed=ALL_FIXED, settable=None, maxiter="{0, 2, 30}", ext="{0, 1, 2, 3}", misc="{0, 1, 2, 3, 4, 5}",
             invariants=True, gen=True):
-    settable = settable or '{"ext", "fmg", "L", "take", "caches", "maxIter", "absOn", "relOn", "misc"}'
+    settable = settable or '{"ext", "fmg", "L", "take", "caches", "maxIter", "absOn", "relOn", "misc", "grid"}'
     path = os.path.join(vlib.BUILD, "cfg", name + ".cfg")
     os.makedirs(os.path.dirname(path), exist_ok=True)
     with open(path, "w") as f:
@@ -51,7 +51,7 @@ def S(name, val):
 
 
 SETUP, SOLVE = {"a": "Setup"}, {"a": "Solve"}
-CTOR0 = dict(ext=0, fmg=False, L=3, take=False, caches=True, maxIter=30, absOn=True, relOn=True, exact=True, misc=0)
+CTOR0 = dict(ext=0, fmg=False, L=3, take=False, caches=True, maxIter=30, absOn=True, relOn=True, exact=True, misc=0, grid=0)
 CURATED = [
     ("F3: NONE then COMBINED on one object", CTOR0, [SETUP, SOLVE, S("ext", 3), SETUP, SOLVE]),
     ("F5: COMBINED, second solve without setup", dict(CTOR0, ext=3), [SETUP, SOLVE, S("misc", 4), SOLVE, SOLVE]),
@@ -60,7 +60,8 @@ CURATED = [
     ("F8: FMG with two levels on a used object", dict(CTOR0, fmg=True, L=2), [SETUP, SOLVE, S("maxIter", 0), SOLVE]),
     ("F8: FMG three levels, extrapolated", dict(CTOR0, fmg=True, ext=1), [SETUP, SOLVE, S("misc", 1), SOLVE]),
     ("take without caches is rejected, object stays usable", dict(CTOR0, take=True), [SETUP, SOLVE, S("caches", False), SETUP, SOLVE, S("caches", True), SETUP, SOLVE]),
-    ("refinement loop", dict(CTOR0, ext=1, fmg=True), [SETUP, SOLVE, S("L", 2), SETUP, SOLVE, S("L", 3), SETUP, SOLVE]),
+    ("refinement loop (convergence_order.cpp: divideBy2 = 0, 1 on one object)", dict(CTOR0, ext=1, fmg=True, misc=4), [SETUP, SOLVE, S("grid", 1), SETUP, SOLVE, S("grid", 0), SETUP, SOLVE]),
+    ("level cap changes", dict(CTOR0, ext=1, fmg=True), [SETUP, SOLVE, S("L", 2), SETUP, SOLVE, S("L", 3), SETUP, SOLVE]),
     ("mode 2 full grid smoothing, budget stop", dict(CTOR0, ext=2, maxIter=2), [SETUP, SOLVE, SOLVE]),
     ("no exact solution", dict(CTOR0, exact=False, ext=3), [SETUP, SOLVE, S("ext", 1), SETUP, SOLVE]),
 ]
